@@ -266,8 +266,31 @@ def make_pm(ch, n_qubits=2, zero_loops=True):
         )
         prog["macros"].append({"name": mn, "params": [], "body": ["seq", body]})
         macros.append((mn, has_sub))
-    prog["body"] = items(3, False, False, True, macros)
-    if ch.int(0, 4) == 0:
+    prog["body"] = items(ch.pick([3, 3, 4]), False, False, True, macros)
+    if ch.int(0, 5) == 0:
+        # template: sections inside loops that are wrapped in single-branch parallel / sequential
+        # blocks at several depths (the walker has to find loops that are not direct children)
+        g = lambda: ["g", "X", [["ix", "q", ch.int(0, n_qubits - 1)]]]
+
+        def section():
+            if ch.bool():
+                return [["sub", None, [g()] * ch.int(0, 2)]] if False else [["g", "prepare_all", []]] + [g()] * ch.int(0, 2) + [["g", "measure_all", []]]
+            return [["g", "prepare_all", []], g(), ["g", "measure_all", []]]
+
+        def nest(depth):
+            body = []
+            for _ in range(ch.int(1, 2)):
+                if depth > 0 and ch.int(0, 2) > 0:
+                    inner = ["loop", ch.pick(counts), ["seq", nest(depth - 1)]]
+                    if ch.bool():
+                        inner = ["par", [["seq", [inner]]]]
+                    body.append(inner)
+                else:
+                    body.extend(section())
+            return body
+
+        prog["body"] = [["loop", ch.pick([2, 2, 3, 1]), ["seq", nest(2)]]] + (prog["body"] if ch.int(0, 2) == 0 else [])
+    elif ch.int(0, 4) == 0:
         # template aimed at the loop rule: a subcircuit opened before / inside a loop and closed inside it
         g = lambda: ["g", "X", [["ix", "q", ch.int(0, n_qubits - 1)]]]
         inner = []
